@@ -12,11 +12,12 @@ sys.dont_write_bytecode = True
 props = [json.loads(l) for l in open(os.path.join(here, "properties.jsonl"))]
 baseline = json.load(open("/root/.vp/BASELINE.json"))["cmd"]
 checks, na, engines = [], [], []
+claimed = {l.strip() for l in open(os.path.join(here, "claimed.txt")) if l.strip() and not l.startswith("#")}
 for p in props:
     pid = p["id"]
     path = os.path.join(here, "checks", pid + ".py")
     m = None
-    if os.path.exists(path):
+    if pid in claimed and os.path.exists(path):
         m = getattr(importlib.import_module("checks." + pid), "MANIFEST", None)
     if not m:
         na.append({"property_id": pid, "reason": "check not built yet in this round (planned design: DESIGN.md section 8, %s); not claimed until its harness runs green on the unchanged tree" % pid})
